@@ -48,6 +48,13 @@ def cmp_c17(impl, model):
         return None
     return coqterm.first_diff(impl, model)
 
+def proj_c06(obs):
+    """the p-value is an f64 on the crate's side and an exact rational on the model's: it is judged by spec_C06 (tolerance), not diffed"""
+    if isinstance(obs, tuple) and obs and obs[0] == "Ok" and isinstance(obs[1], tuple):
+        _, links, recs = obs[1]
+        return ("Ok", ("", links, [("", r[1], r[2], r[4]) for r in recs]))
+    return obs
+
 PROPS = {
     "C01": {
         "subs": [sub("C01", "run_C01", "spec_C01", W_IMPORTS + ["Run.C01"], 400, 4000)],
@@ -162,6 +169,18 @@ PROPS = {
         "rule": "ontologies with 0-3 modifier branches below HP:1, terms below several categories and below both kinds of branch, "
                 "and ontologies missing one or both roots; built with build_with_defaults; non-trivial = both roots and >= 5 terms",
         "trust": [], "assumptions": [],
+    },
+    "C06": {
+        "subs": [dict(sub("C06", "run_C06", "spec_C06", W_IMPORTS + ["Run.C06"], 160, 1600), proj=proj_c06)],
+        "run_modules": ["C06"],
+        "rule": "two thirds: flat ontologies (root + N leaves, N in 1..70, around the 170-entry factorial table (160-185) and above it up to 360 "
+                "(thorough 900)) with groups of records sharing K and carrying k = kmin, kmin+1, ..., kmax (the boundary n + K > N over-weighted), "
+                "sample sizes 1, N, N/2, random, a record of another kind with the same numeric id; one third: general small ontologies "
+                "(inheritance along is_a) with random background subsets and samples; the three kinds; record set, ids, counts and fold "
+                "enrichment (Flocq binary64) compared exactly, p-value against the exact tail (relative 1e-9), in [0,1], antitone in k; "
+                "non-trivial = flat population of >= 10 terms",
+        "trust": ["Flocq 4.1 binary64 (IEEE-754) as the meaning of Rust f64 division", "f64 ln_gamma / ln / exp evaluation of the tail: compared with the exact value under tolerance only"],
+        "assumptions": ["sample drawn from the background (the property's quantifier)", "p-value tolerance: |p - exact| <= 1e-9 * exact (or both < 1e-280)"],
     },
     "C07": {
         "subs": [sub("C07", "run_C07", "spec_C07", W_IMPORTS + ["Run.C07"], 300, 3000)],
